@@ -57,7 +57,7 @@ def run(ctx):
     armed_t, unarmed_t = table["armed"], table["unarmed"]
 
     # ---- positive controls ------------------------------------------------
-    fx = ctx.fixture_db(["rcap", "loops", "fmtlen"])
+    fx = ctx.fixture_db(["rcap", "loops", "fmtlen", "carve"])
     from driver import Report
     frep = Report("fixture")
     for f in fx.tu("rcap").main_functions():
@@ -80,7 +80,13 @@ def run(ctx):
     st = {o[1].split("|")[0].split("::")[1]: o[2] for o in frep.obligations}
     if st != {"fmt_bad": "VIOLATED", "fmt_good": "held"}:
         raise AnalysisBroken("snprintf-length positive control failed: %s" % st)
-    rep.extra["positive_controls"] = "fixtures/fmtlen.c (bad, clamped, strlen twins); fixtures/rcap.c (3 bad + 3 good twins), fixtures/loops.c (divergent, equality-exit, good): all as expected"
+    from rules_common import check_block_offsets as _cbo
+    frep = Report("fixture")
+    _cbo(fx, fx.tu("carve").main_functions(), frep, "FXC")
+    st = {o[1].split("|")[0].split("::")[1]: o[2] for o in frep.obligations}
+    if st != {"carve_bad": "VIOLATED", "carve_good": "held"}:
+        raise AnalysisBroken("block-offset positive control failed: %s" % st)
+    rep.extra["positive_controls"] = "fixtures/carve.c (short and exact block); fixtures/fmtlen.c (bad, clamped, strlen twins); fixtures/rcap.c (3 bad + 3 good twins), fixtures/loops.c (divergent, equality-exit, good): all as expected"
 
     libfuncs = [f for f in db.all_functions() if f.relfile.startswith("orc/")]
     if len(libfuncs) < 1500:
@@ -275,6 +281,9 @@ def d2(db, rep):
     from rules_common import check_snprintf_lengths
     nfmt = check_snprintf_lengths(db, [f for f in db.all_functions() if f.relfile.startswith("orc/") or f.relfile.startswith("tools/")], rep, "D1c-FMT-LENGTH")
     rep.extra["snprintf_result_uses_judged"] = nfmt
+    # D1d: slots carved out of a constant-size heap block lie inside it (instances on the unchanged tree: none; control: fixtures/carve.c)
+    from rules_common import check_block_offsets
+    rep.extra["block_offset_sites_judged"] = check_block_offsets(db, [g for g in db.all_functions() if g.relfile.startswith("orc/") or g.relfile.startswith("tools/")], rep, "D1d-BLOCK-OFFSET")
     from rules_common import check_code_exec_nonnull
     check_code_exec_nonnull(db, rep, "D2h-FALLBACK-NONNULL")
     # (f) the flags that force the fallback are tested before code memory is requested
